@@ -5,7 +5,7 @@
 
 package generate
 
-//@ uses colors regmon
+//@ uses colors regmon aff path
 
 // ---- SetGradient: register layout, rejections, selectors restored (C19), bit-precise.
 // mon.regs is the selector/register machine of the Destination (spec library regmon): a function of the calls delivered.
@@ -82,3 +82,114 @@ package generate
 //@   at call SetGradient assert [C19.elliptical.centre] (and (= (+ (* m0 cx) (* m1 cy) m2) 0.0) (= (+ (* m3 cx) (* m4 cy) m5) 0.0))
 //@   at call SetGradient assert [C19.elliptical.axis-r] (and (= (+ (* m0 (+ cx rx)) (* m1 (+ cy ry)) m2) 1.0) (= (+ (* m3 (+ cx rx)) (* m4 (+ cy ry)) m5) 0.0))
 //@   at call SetGradient assert [C19.elliptical.axis-s] (and (= (+ (* m0 (+ cx sx)) (* m1 (+ cy sy)) m2) 0.0) (= (+ (* m3 (+ cx sx)) (* m4 (+ cy sy)) m5) 1.0))
+
+// ---- affine helpers (C20), real-number reading; spec library aff
+
+//@ contract Translate
+//@   mode math
+//@   needs aff
+//@   ensures [C20.translate] (aff.is result 1.0 0.0 x 0.0 1.0 y)
+//@ contract Scale
+//@   mode math
+//@   needs aff
+//@   ensures [C20.scale.none] (=> (= (len v) 0) (aff.is result 1.0 0.0 0.0 0.0 1.0 0.0))
+//@   ensures [C20.scale.uniform] (=> (= (len v) 1) (aff.is result (at v 0) 0.0 0.0 0.0 (at v 0) 0.0))
+//@   ensures [C20.scale.xy] (=> (>= (len v) 2) (aff.is result (at v 0) 0.0 0.0 0.0 (at v 1) 0.0))
+//@ contract MulAff3
+//@   mode math
+//@   needs aff
+//@   ensures [C20.mulaff3] (and (= X (aff.x a x y)) (= Y (aff.y a x y)))
+//@ contract Concat
+//@   mode math
+//@   needs aff
+//@   per-return
+//@   ensures [C20.concat.fold] (aff.eq result (aff.fold (arr affs) (off affs) (len affs)))
+//@   ensures [C20.concat.one] (=> (= (len affs) 1) (aff.eq result (at affs 0)))
+//@   invariant 0 [concat.fold] (and (>= (len affs) 2) (<= (+ rangeindex 1) (len affs)) (aff.eq *a (aff.fold (arr affs) (off affs) (+ rangeindex 1))))
+
+// normalize: absolute operands get the whole transform, relative ones (lower-case verb) its scale part only;
+// arc radii get the scale, arc flags and rotation are left alone; without a transform nothing changes.
+//@ contract normalize
+//@   mode math
+//@   needs aff
+//@   modifies *args
+//@   let T (aff.fold (arr transforms) (off transforms) (len transforms))
+//@   let rel (and (<= 97 verb) (<= verb 122))
+//@   let A (old *args)
+//@   let N *args
+//@   let on (> (len transforms) 0)
+//@   ensures [C20.norm.none] (=> (not on) (= N A))
+//@   ensures [C20.norm.n0] (=> (and on (not (or (= n 1) (= n 2) (= n 4) (= n 6) (= n 7)))) (= N A))
+//@   ensures [C20.norm.h] (=> (and on (= n 1) (or (= verb 72) (= verb 104))) (= N (store A 0 (ite rel (* (select A 0) (select T 0)) (aff.x T (select A 0) 0.0)))))
+//@   ensures [C20.norm.v] (=> (and on (= n 1) (or (= verb 86) (= verb 118))) (= N (store A 0 (ite rel (* (select A 0) (select T 4)) (aff.y T 0.0 (select A 0))))))
+//@   ensures [C20.norm.pair01] (=> (and on (or (= n 2) (= n 4) (= n 6))) (aff.pairOK T rel (select N 0) (select N 1) (select A 0) (select A 1)))
+//@   ensures [C20.norm.pair23] (=> (and on (or (= n 4) (= n 6))) (aff.pairOK T rel (select N 2) (select N 3) (select A 2) (select A 3)))
+//@   ensures [C20.norm.pair45] (=> (and on (= n 6)) (aff.pairOK T rel (select N 4) (select N 5) (select A 4) (select A 5)))
+//@   ensures [C20.norm.frame2] (=> (and on (= n 2)) (and (= (select N 2) (select A 2)) (= (select N 3) (select A 3)) (= (select N 4) (select A 4)) (= (select N 5) (select A 5)) (= (select N 6) (select A 6))))
+//@   ensures [C20.norm.frame4] (=> (and on (= n 4)) (and (= (select N 4) (select A 4)) (= (select N 5) (select A 5)) (= (select N 6) (select A 6))))
+//@   ensures [C20.norm.frame6] (=> (and on (= n 6)) (= (select N 6) (select A 6)))
+//@   ensures [C20.norm.arc.radii] (=> (and on (= n 7)) (and (= (select N 0) (* (select A 0) (select T 0))) (= (select N 1) (* (select A 1) (select T 4)))))
+//@   ensures [C20.norm.arc.flags] (=> (and on (= n 7)) (and (= (select N 2) (select A 2)) (= (select N 3) (select A 3)) (= (select N 4) (select A 4))))
+//@   ensures [C20.norm.arc.end] (=> (and on (= n 7)) (aff.pairOK T rel (select N 5) (select N 6) (select A 5) (select A 6)))
+
+// SetTransform keeps exactly one matrix: the composition of its arguments.
+//@ contract (*Generator).SetTransform
+//@   mode math
+//@   needs aff
+//@   modifies e.transforms mem.generate.Aff3 nextR
+//@   ensures [C20.settransform] (and (= (len e.transforms) 1) (aff.eq (at e.transforms 0) (aff.fold (arr transforms) (off transforms) (len transforms))))
+
+// ---- SetPathData (C20), bit-precise: which operation each operand group becomes. The tokeniser (scan, ParseFloat) is cut
+// out: scan is trusted to write only *args. V is the verb a group stands for: the letter in front of it, or the verb
+// the previous group left behind (moves demoted to lines), and '@' for the very first group.
+
+//@ contract scan
+//@   trusted
+//@   modifies *args
+
+//@ contract UnrecognizedPathDataVerb
+//@   trusted
+
+//@ contract (*Generator).SetPathData
+//@   needs path pathmon
+//@   nosafety whether d[0], d[1:] and the number scanner stay inside the string depends on the path data being well-formed, a grammar over the whole string that these contracts do not state (tokenisation is not decided, DESIGN C20)
+//@   requires (not (= e.Destination nil.Iface))
+//@   modifies tr.ivg.Destination mon.path mon.regs
+//@   let d0 (at phi:d (int 0))
+//@   let v (ite (path.isVerb d0) d0 phi:prevVerb)
+//@   let V (ite phi:start #x40 v)
+//@   let a0 args[0]
+//@   let a1 args[1]
+//@   let a2 args[2]
+//@   let a3 args[3]
+//@   let a4 args[4]
+//@   let a5 args[5]
+//@   let a6 args[6]
+//@   at call scan assert [C20.scan.count] (= arg2 (path.nargs v))
+//@   at call normalize assert [C20.normalize.args] (and (= arg1 (path.nargs v)) (= arg2 V) (= arg3 e.transforms))
+//@   at call Destination.StartPath assert [C20.dispatch.start] (and phi:start (= arg0 adj) (= arg1 a0) (= arg2 a1))
+//@   at call Destination.AbsHLineTo assert [C20.dispatch.H] (and (= V #x48) (= arg0 a0))
+//@   at call Destination.RelHLineTo assert [C20.dispatch.h] (and (= V #x68) (= arg0 a0))
+//@   at call Destination.AbsVLineTo assert [C20.dispatch.V] (and (= V #x56) (= arg0 a0))
+//@   at call Destination.RelVLineTo assert [C20.dispatch.v] (and (= V #x76) (= arg0 a0))
+//@   at call Destination.AbsLineTo assert [C20.dispatch.L] (and (= V #x4c) (= arg0 a0) (= arg1 a1))
+//@   at call Destination.RelLineTo assert [C20.dispatch.l] (and (= V #x6c) (= arg0 a0) (= arg1 a1))
+//@   at call Destination.ClosePathAbsMoveTo assert [C20.dispatch.M] (and (= V #x4d) (= arg0 a0) (= arg1 a1))
+//@   at call Destination.ClosePathRelMoveTo assert [C20.dispatch.m] (and (= V #x6d) (= arg0 a0) (= arg1 a1))
+//@   at call Destination.AbsSmoothQuadTo assert [C20.dispatch.T] (and (= V #x54) (= arg0 a0) (= arg1 a1))
+//@   at call Destination.RelSmoothQuadTo assert [C20.dispatch.t] (and (= V #x74) (= arg0 a0) (= arg1 a1))
+//@   at call Destination.AbsQuadTo assert [C20.dispatch.Q] (and (= V #x51) (= arg0 a0) (= arg1 a1) (= arg2 a2) (= arg3 a3))
+//@   at call Destination.RelQuadTo assert [C20.dispatch.q] (and (= V #x71) (= arg0 a0) (= arg1 a1) (= arg2 a2) (= arg3 a3))
+//@   at call Destination.AbsSmoothCubeTo assert [C20.dispatch.S] (and (= V #x53) (= arg0 a0) (= arg1 a1) (= arg2 a2) (= arg3 a3))
+//@   at call Destination.RelSmoothCubeTo assert [C20.dispatch.s] (and (= V #x73) (= arg0 a0) (= arg1 a1) (= arg2 a2) (= arg3 a3))
+//@   at call Destination.AbsCubeTo assert [C20.dispatch.C] (and (= V #x43) (= arg0 a0) (= arg1 a1) (= arg2 a2) (= arg3 a3) (= arg4 a4) (= arg5 a5))
+//@   at call Destination.RelCubeTo assert [C20.dispatch.c] (and (= V #x63) (= arg0 a0) (= arg1 a1) (= arg2 a2) (= arg3 a3) (= arg4 a4) (= arg5 a5))
+//@   at call Destination.AbsArcTo assert [C20.dispatch.A] (and (= V #x41) (= arg0 a0) (= arg1 a1) (= arg2 (fp.div RNE a2 ((_ to_fp 8 24) RNE 360.0))) (= arg3 (not (fp.eq a3 (_ +zero 8 24)))) (= arg4 (not (fp.eq a4 (_ +zero 8 24)))) (= arg5 a5) (= arg6 a6))
+//@   at call Destination.RelArcTo assert [C20.dispatch.a] (and (= V #x61) (= arg0 a0) (= arg1 a1) (= arg2 (fp.div RNE a2 ((_ to_fp 8 24) RNE 360.0))) (= arg3 (not (fp.eq a3 (_ +zero 8 24)))) (= arg4 (not (fp.eq a4 (_ +zero 8 24)))) (= arg5 a5) (= arg6 a6))
+//@   let hd0 (at (head d) (int 0))
+//@   let hv (ite (path.isVerb hd0) hd0 (head prevVerb))
+//@   step 0 [C20.verb.carry] (and (= prevVerb (path.demote hv)) (= prevN (path.nargs hv)) (not start))
+//@   invariant 0 [path.state] (and (= prevN (path.nargs prevVerb)) (not (= prevVerb #x4d)) (not (= prevVerb #x6d)) (= start (= prevVerb #x00)) (or (= prevVerb #x00) (path.isVerb prevVerb)))
+//@   invariant 0 [path.count] (and (= (pm.ended mon.path) (pm.ended (old mon.path))) (= (pm.started mon.path) (+ (pm.started (old mon.path)) (ite start 0 1))))
+//@   ensures [C20.ended-once] (=> (= result nil.Iface) (and (= (pm.ended mon.path) (+ (pm.ended (old mon.path)) 1)) (<= (pm.started mon.path) (+ (pm.started (old mon.path)) 1)) ((_ is ivg.Destination.ClosePathEndPath) (hd.ivg.Destination tr.ivg.Destination))))
+//@   ensures [C20.error.nothing-ended] (=> (not (= result nil.Iface)) (= (pm.ended mon.path) (pm.ended (old mon.path))))
